@@ -37,6 +37,11 @@ var (
 
 func Now() Time {
 	s := simrt.S
+	if s == nil {
+		// package initialisation of the instrumented library, before any simulation
+		// runs (package state is re-initialised inside every incarnation anyway)
+		return real.Unix(1790000000, 0).UTC()
+	}
 	t := real.Unix(0, s.NowNS())
 	if off := s.Cfg.TZOffset; off != 0 {
 		return t.In(real.FixedZone("", off))
